@@ -10,7 +10,7 @@ LEVEL = "exploration"
 RULE = ("the C15 configuration space (model tags x rated power x all subsets of refused blocks x battery present/absent, DT and "
         "ES likewise) is run end to end (read_device_info + 3 x read_runtime_data against a simulated inverter that answers with "
         "EXACT-length responses); a hook on ProtocolResponse.read records (position, requested, returned) of every read during "
-        "decoding (every other Modbus/TCP run against firmware that sends a wrong MBAP length field; every fifth configuration with a failing re-run of read_device_info before one more poll, every tenth with polls in which one block read is refused with a non-address exception code, every tenth with read_sensor() of every listed id and with overlapping polls on a fresh object): no read may return fewer bytes than requested (= decoding past the end of the fetched window); every short "
+        "decoding, and every sensor offered by sensors() after the polls must lie inside a window the last successful poll fetched (every other Modbus/TCP run against firmware that sends a wrong MBAP length field; every fifth configuration with a failing re-run of read_device_info before one more poll, every tenth with polls in which one block read is refused with a non-address exception code, every tenth with read_sensor() of every listed id and with overlapping polls on a fresh object): no read may return fewer bytes than requested (= decoding past the end of the fetched window); every short "
         "read is attributed to the sensor that caused it; distinct = distinct configurations; reads observed are counted")
 ASSUMPTIONS = ["the simulated inverter answers every read with exactly 2 x count payload bytes",
                "values decoded from a refused block's predecessor response would also show as foreign reads in C12/C15; this "
